@@ -4,6 +4,7 @@
 package sm2
 
 import (
+	"crypto/subtle"
 	"encoding/binary"
 	"errors"
 	"fmt"
@@ -104,6 +105,13 @@ func TestPrivateKey(priv []byte) int {
 	if l > 0 {
 		return l
 	}
+
+	// zero is not in [1, n-2], whatever its length
+	var zero [32]byte
+	if subtle.ConstantTimeCompare(priv, zero[:len(priv)]) == 1 {
+		return -1
+	}
+
 	if l < 0 {
 		return 0
 	}
